@@ -210,6 +210,78 @@ func (e *c08Env) del(repo, name string) {
 	e.c.w.Count("del=" + strings.Fields(res)[0])
 }
 
+// delBundle is core.DeleteBundle with its default options: the labels of the bundle go with it.
+func (e *c08Env) delBundle(repo string, rank int) {
+	id := e.bundles[rank]
+	err := corekit.Recover(func() error { return core.DeleteBundle(repo, e.env.Stores, id) })
+	res := "ok"
+	if err != nil {
+		res = "err ## " + tr.Esc(c08Short(err.Error()))
+	}
+	e.c.w.Op(fmt.Sprintf("delb r=%s b=%d", tr.Esc(repo), rank), res)
+	e.c.w.Count("delb=" + strings.Fields(res)[0])
+}
+
+// c08ManyLabels: a repository with `n` labels spread over three bundles (more than one listing
+// batch of 1024 when n is large), then two of the three bundles are deleted one after the other:
+// the labels last set to a deleted bundle are gone, every other label is what it was.
+func c08ManyLabels(c *ctx, n int) error {
+	e := &c08Env{c: c, env: corekit.NewEnv(), rank: map[string]int{}, ofRepo: map[string][]int{}, used: map[string]map[string]bool{}, bcache: map[string]*core.Bundle{}}
+	repo, other := "many", "other"
+	c.w.Case("many-labels n=%d", n)
+	c.w.Count(fmt.Sprintf("many-labels=%d", c08Bucket(n)))
+	for _, rp := range []string{repo, other} {
+		err := e.env.CreateRepo(rp)
+		c.w.Op("mkrepo r="+tr.Esc(rp), corekit.ErrClass(err))
+		if err != nil {
+			return fmt.Errorf("CreateRepo %q: %v", rp, err)
+		}
+		for j := 0; j < 3; j++ {
+			id, err := e.env.UploadTree(rp, map[string][]byte{"f": []byte(fmt.Sprintf("%s-%d", rp, j))}, 256)
+			if err != nil {
+				return fmt.Errorf("UploadTree %q: %v", rp, err)
+			}
+			k := len(e.bundles)
+			e.bundles = append(e.bundles, id)
+			e.rank[id] = k
+			e.ofRepo[rp] = append(e.ofRepo[rp], k)
+			c.w.Note(fmt.Sprintf("bundle r=%s b=%d", tr.Esc(rp), k))
+		}
+	}
+	r := c.rng
+	names := make([]string, 0, n)
+	for i := 0; i < n; i++ {
+		nm := fmt.Sprintf("m-%04d", i)
+		names = append(names, nm)
+		e.set(repo, nm, e.ofRepo[repo][r.Intn(3)])
+	}
+	e.set(other, "m-0000", e.ofRepo[other][0])
+	e.set(other, "keep", e.ofRepo[other][1])
+	probe := func() {
+		e.list(repo, "", 0)
+		e.list(other, "", 0)
+		for j := 0; j < 12 && len(names) > 0; j++ {
+			e.get(repo, names[r.Intn(len(names))])
+		}
+		if len(names) > 0 {
+			e.get(repo, names[0])
+			e.get(repo, names[len(names)-1])
+		}
+	}
+	probe()
+	perm := r.Perm(3)
+	e.delBundle(repo, e.ofRepo[other][0]) // not a bundle of this repository: refused, nothing changes
+	e.delBundle(repo, e.ofRepo[repo][perm[0]])
+	probe()
+	e.delBundle(repo, e.ofRepo[repo][perm[0]]) // again: the bundle is gone
+	e.delBundle(repo, e.ofRepo[repo][perm[1]])
+	probe()
+	e.delBundle(other, e.ofRepo[other][0])
+	probe()
+	c.w.End()
+	return nil
+}
+
 func (e *c08Env) get(repo, name string) {
 	var got string
 	err := corekit.Recover(func() error {
@@ -604,6 +676,17 @@ func c08(c *ctx) error {
 			e.listUnfriendly(repo, r)
 		}
 		c.w.End()
+	}
+	// DeleteBundle takes the labels of the bundle with it: small repositories, and one with more
+	// labels than a listing batch
+	sizes := []int{0, 1, 5, 40, 1100}
+	if c.thorough() {
+		sizes = []int{0, 1, 2, 5, 40, 300, 1024, 1025, 1100, 2100}
+	}
+	for _, n := range sizes {
+		if err := c08ManyLabels(c, n); err != nil {
+			return err
+		}
 	}
 	return nil
 }
